@@ -191,7 +191,8 @@ def build(case):
                 # all links of this output branch behind ONE shared pass-through adapter at the output
                 key = (sc, so)
                 if key not in shared:
-                    shared[key] = fm.adapters.Scale(1.0)
+                    sd = dict((o, d) for o, d in comps_spec[sc].get("shared_delay", []))
+                    shared[key] = mk_adapter(["fixed", sd[so]]) if so in sd else fm.adapters.Scale(1.0)
                     node >> shared[key]
                     _wrap_finalize(shared[key], fin_count, (-1 - sc, so, 0))
                     n_shared[0] += 1
